@@ -9,6 +9,7 @@ import (
 	"github.com/llir/llvm/ir"
 	"github.com/llir/llvm/ir/constant"
 	"github.com/llir/llvm/ir/enum"
+	"github.com/llir/llvm/ir/metadata"
 	"github.com/llir/llvm/ir/types"
 	"github.com/llir/llvm/ir/value"
 
@@ -24,6 +25,7 @@ func init() {
 		Rule: "(a) constructor matrix: every instruction, terminator, constant and constant-expression constructor of the public API is applied to well-typed operands over the operand shapes {i1,i8,i13,i32,i64,i128; half,float,double,x86_fp80,fp128; pointers in address space 0/1; fixed and scalable vectors; arrays; literal and identified structs; function pointers with and without varargs; integer constants of 64-256 bits built by NewIntFromString in decimal, negative, u0x and s0x spellings}, with named and unnamed results; each recipe is its own function/global. No constructor may panic, String() must not panic, llvm-as must accept the text, the library's parser must accept it, and parse(text) must be structurally identical to the constructed module. " +
 			"(b) construction programs: PRNG data-flow programs over integer (including 65/100/128/256-bit constants combined, shifted and truncated back to 64 bits), floating-point, memory, vector, aggregate and control-flow constructors are built through the API and executed with lli; the values they print and the exit code must equal those of the monitor's reference evaluator (big-integer / IEEE semantics), which evaluates the same construction calls. " +
 			"named aliases: twelve constructions mix values of named non-struct types (%T = type i32*, %I = type i32, %V = type <2 x i32>) with values of their bodies (store, insertvalue, insertelement, icmp, select, add, gep, load): no constructor may reject the mix, and the module goes through the same print/LLVM/re-parse comparison. " +
+			"Further cases: typed uses (select) of every comparison result; a fixed and a scalable vector of one length compared in one function; all eight inline asm flag combinations; float constants made from doubles (NewFloat) checked against the nearest single; metadata attachments on a declaration, a definition and globals. " +
 			"non-trivial = a recipe or program that LLVM accepted; distinct by printed text",
 		Gen:           genC03,
 		MinNontrivial: 150,
@@ -667,6 +669,13 @@ func c03ModuleLevel(r *fw.Rec) {
 	m.NewAlias("", g)
 	f2 := m.NewFunc("", types.Void)
 	f2.NewBlock("").NewRet(nil)
+	// metadata attachments on a declaration, a definition and global variables
+	note := &metadata.Tuple{MetadataID: -1, Fields: []metadata.Field{&metadata.String{Value: "note"}}}
+	m.MetadataDefs = append(m.MetadataDefs, note)
+	d.Metadata = append(d.Metadata, &metadata.Attachment{Name: "note", Node: note}, &metadata.Attachment{Name: "other", Node: note})
+	f2.Metadata = append(f2.Metadata, &metadata.Attachment{Name: "note", Node: note})
+	g.Metadata = append(g.Metadata, &metadata.Attachment{Name: "note", Node: note})
+	decl.Metadata = append(decl.Metadata, &metadata.Attachment{Name: "note", Node: note})
 	c03CheckModule(r, "module-level", m)
 	c03BlockAddresses(r)
 	c03AddrSpaces(r)
